@@ -29,7 +29,7 @@ while read -r commit props; do
     fi
   fi
   for p in $props; do
-    res=$(VERIF_REPO_SRC="$WT/src" "$HERE/check" "$p" --tier quick --seed "$SEED" --no-evidence 2>&1)
+    res=$(VERIF_REPO_SRC="$WT/src" "$HERE/check" "$p" --tier quick --seed "$SEED" --no-evidence ${BUDGET:+--budget $BUDGET} 2>&1)
     rc=$?
     n=$(echo "$res" | grep -c "^VIOLATION")
     cls=$(echo "$res" | grep "class=" | head -1 | sed 's/^ *//' | cut -c1-160)
